@@ -68,8 +68,8 @@
                                 the destination lists the name with type (8231, 519)); the theorem applies, the sort returns OK.
    [U] C14_findable_mono        a name found by find_sub_element under a 32-bit version mask (what every insertion path checks) is found
                                 under u32::MAX (what sort looks up) unless the wider lookup runs into a table panic
-   [F] C14_cmp_cyclic_refuted   the comparison BEFORE fix 4192043 (policy_v0) ordered a2 < a10 < a1b < a2 (tiny tables)
-   [F] C14_v0_skipped_stage_refuted, C14_v0_nan_refuted   the two other defects before fixes 9393763 and 637b913 *)
+   [F] C14_cmp_cyclic_refuted   the comparison BEFORE fix b1d60f9 (policy_v0) ordered a2 < a10 < a1b < a2 (tiny tables)
+   [F] C14_v0_skipped_stage_refuted, C14_v0_nan_refuted   the two other defects before fixes bd2b022 and a639b70 *)
 From Coq Require Import Permutation.
 From AV Require Import Base.Bytes Base.Outcome Hash.HashModel Tree.Heap Tree.Ops Tree.Script Tree.Sort Tree.SortTiny
   Tree.SortProofsOrder Tree.SortProofsCmp Tree.SortProofsHeap Tree.SortProofsV0 Tree.SortProofsMain Tree.SortProofsNames
